@@ -141,6 +141,7 @@ Proof.
   - vm_compute. repeat split; reflexivity.
 Qed.
 
+Print Assumptions C09_nonvacuous_with_attached_coins.
 Print Assumptions C09_invariant.
 Print Assumptions C09_epoch_ledger.
 Print Assumptions C09_distributor_solvent.
